@@ -13,8 +13,9 @@ EXPLANATION = (
     'parsed" -- no filter on date, size or payload presence sits between reading and '
     'printing; (R09.3) restore, rm and empty act on the pair (pbc(I), I) of one listed I; '
     '(R09.4) list, empty and rm obtain their trash directories from the same scanner '
-    'generator, so they see the same set.  Restore\'s separate enumerator is judged under '
-    'C20/C08.')
+    'generator, so they see the same set; (R09.7) no reader guards the listing of '
+    '$topdir/.Trash-$uid with a no-follow test on it (trash-put fills a symlinked one).  '
+    'Restore\'s separate enumerator is judged under C20/C08.')
 ASSUMPTIONS = ['a trash entry is the pair files/N + info/N.trashinfo (spec)']
 MINIMUM = {'R09.1': 6, 'R09.2': 4, 'R09.3': 3, 'R09.4': 3, 'R09.5': 3, 'R09.6': 4, 'R09.7': 3}
 SUFFIX = '.trashinfo'
